@@ -23,7 +23,7 @@ func TestC06_TmpDoneAfterRemoval(t *testing.T) {
 	}
 	select {
 	case <-done:
-	case <-time.After(2 * time.Second):
+	case <-time.After(60 * time.Second):
 		t.Error("deadline passed after Remove(cuid): done is still open")
 	}
 
@@ -40,7 +40,7 @@ func TestC06_TmpDoneAfterRemoval(t *testing.T) {
 	close(gate)
 	select {
 	case <-done2:
-	case <-time.After(2 * time.Second):
+	case <-time.After(60 * time.Second):
 		t.Error("handler returned true after ClearAll: done is still open")
 	}
 }
